@@ -11,6 +11,8 @@ pub const HOSTILE: &[&str] = &[
     "<", ">", "&", "|", "!", "~", ":", ",", "s", "d", "t", "i", "m", "n", "a", "q", "\\", "§", "P", "r", "g",
     // boundaries of the UTF-8 encoding lengths, blanks outside the lexer's whitespace set, the byte order mark
     "\u{7f}", "\u{80}", "\u{7ff}", "\u{800}", "\u{ffff}", "\u{10000}", "\u{10ffff}", "\u{a0}", "\u{3000}", "\u{feff}", "\u{85}",
+    // invisible format characters, a combining mark, Latin-1 symbols with the Emoji property
+    "\u{200b}", "\u{2060}", "\u{ad}", "\u{301}", "©", "®",
 ];
 
 pub fn hostile_string(r: &mut Rng, maxlen: usize) -> String {
@@ -422,4 +424,29 @@ pub fn repeated_case(i: u64, thorough: bool) -> String {
         s.push_str("\nqubit q; h q; int tail = 1;\n");
     }
     s
+}
+
+
+/// Every construct slot x every short token sequence: a template with one hole, filled with every
+/// sequence of one and of two symbols of the full token alphabet.
+pub const HOLE_TEMPLATES: &[&str] = &[
+    "def f(int a) -> § { }", "extern g(int) -> §;", "int[§] x;", "array[§, 2] a;", "def f(§ a) { }", "for § i in [0:2] { }", "const § x = 1;",
+    "input § x;", "gate g(§) q { }", "x = §(y);", "delay[§] q;", "switch (x) { case § { } }", "U(§) q;", "ctrl(§) @ x q, r;", "let a = §;", "a[§] = 1;",
+    "measure § -> c;", "defcal x(§) $0 { }", "box[§] { }", "pow(§) @ x q;", "if (§) x = 1; else y = 2;", "return §;", "def f(readonly array[int, §] a) { }",
+    "complex[§] z;",
+];
+
+pub fn hole_count() -> u64 {
+    let n = crate::mon::c01::full_alphabet().len() as u64;
+    HOLE_TEMPLATES.len() as u64 * (n + n * n)
+}
+
+pub fn hole_case(i: u64) -> String {
+    let al = crate::mon::c01::full_alphabet();
+    let n = al.len() as u64;
+    let per = n + n * n;
+    let t = HOLE_TEMPLATES[(i / per) as usize % HOLE_TEMPLATES.len()];
+    let k = i % per;
+    let fill = if k < n { al[k as usize].clone() } else { format!("{} {}", al[((k - n) % n) as usize], al[((k - n) / n) as usize]) };
+    t.replace('§', &fill)
 }
